@@ -174,7 +174,7 @@ fn run_plain(c: &mut Hypercore, call: &Call, proofs: &[Proof]) -> String {
             Out::Ok(o) => format!("ok {} {}", o.length, o.byte_length),
             o => o.map(|_| ()).brief(),
         },
-        Call::Batch(t) => match guard(c.append_batch(&[vec![*t, 1u8], vec![*t, 2u8, 3u8]])) {
+        Call::Batch(t) => match guard(c.append_batch(&[vec![*t, 1u8], vec![*t, 2u8, 3u8], vec![*t, 4u8]])) {
             Out::Ok(o) => format!("ok {} {}", o.length, o.byte_length),
             o => o.map(|_| ()).brief(),
         },
@@ -206,7 +206,7 @@ async fn run_shared(sc: &SharedCore, call: &Call, proofs: &[Proof]) -> String {
             Ok(o) => format!("ok {} {}", o.length, o.byte_length),
             Err(e) => format!("Err({e})"),
         },
-        Call::Batch(t) => match sc.append_batch(vec![vec![*t, 1u8], vec![*t, 2u8, 3u8]]).await {
+        Call::Batch(t) => match sc.append_batch(vec![vec![*t, 1u8], vec![*t, 2u8, 3u8], vec![*t, 4u8]]).await {
             Ok(o) => format!("ok {} {}", o.length, o.byte_length),
             Err(e) => format!("Err({e})"),
         },
